@@ -62,6 +62,7 @@ type explorer struct {
 	frontier []schedItem // depth-2 nodes, collected first (identically in every shard), then dealt out round-robin
 	collect  bool
 	stop     bool
+	nrun     int64
 }
 
 type schedItem struct {
@@ -104,6 +105,16 @@ func ExploreJob(tests []*SchedTest, job SchedJob) *SchedReport {
 	return e.rep
 }
 
+func (e *explorer) keyMode() int {
+	switch {
+	case e.visited == nil:
+		return 0
+	case e.job.Bound < 0:
+		return 1
+	}
+	return 2
+}
+
 func preemptions(tr []Step) int {
 	n := 0
 	for _, s := range tr {
@@ -128,14 +139,15 @@ func (e *explorer) explore(prefix []int32, cost int, depth int) {
 			counted = false // every shard re-runs the shallow nodes to enumerate the frontier; shard 0 accounts for them
 		}
 	}
-	if e.rep.Execs&255 == 255 {
+	if e.rep.Execs&63 == 63 || e.nrun == 0 {
 		if (e.job.Deadline > 0 && time.Now().Unix() > e.job.Deadline) || (e.job.MaxExecs > 0 && e.rep.Execs >= e.job.MaxExecs) {
 			e.rep.Truncated = true
 			e.stop = true
 			return
 		}
 	}
-	res := RunSchedule(e.t, prefix, e.visited != nil, false)
+	e.nrun++
+	res := RunSchedule(e.t, prefix, e.keyMode(), false)
 	if counted {
 		e.rep.Execs++
 		e.rep.Steps += int64(len(res.Trace))
@@ -206,7 +218,7 @@ func (e *explorer) explore(prefix []int32, cost int, depth int) {
 func (e *explorer) confirm(res *ExecResult) {
 	ch := Choices(res.Trace)
 	for k := 0; k < 5; k++ {
-		again := RunSchedule(e.t, ch, e.visited != nil, k == 0)
+		again := RunSchedule(e.t, ch, e.keyMode(), k == 0)
 		if d := sameExec(res, again); d != "" {
 			schedFatal("test %s: failing schedule is not reproducible (replay %d: %s) — nondeterminism outside the scheduler's control", e.t.Name, k+1, d)
 		}
@@ -267,6 +279,9 @@ func SchedMain(r *Run, tests []*SchedTest, plan SchedPlan) {
 		}
 		os.Exit(0)
 	}
+	if os.Getenv("VERIF_SCHED_PARENT") != "" {
+		schedFatal("worker process started without a job (environment lost?)")
+	}
 	byName := map[string]*SchedTest{}
 	for _, t := range tests {
 		byName[t.Name] = t
@@ -280,7 +295,7 @@ func SchedMain(r *Run, tests []*SchedTest, plan SchedPlan) {
 		if t == nil {
 			r.HarnessError("replay names unknown test %q", c.Test)
 		}
-		res := RunSchedule(t, c.Choices, false, true)
+		res := RunSchedule(t, c.Choices, 0, true)
 		r.Traces.Add(1)
 		r.States.Add(1)
 		r.Transitions.Add(int64(len(res.Trace)))
@@ -299,8 +314,8 @@ func SchedMain(r *Run, tests []*SchedTest, plan SchedPlan) {
 
 	// determinism self-test, part 1: the default schedule of every test, twice, with goroutine-identity checks on
 	for _, t := range tests {
-		a := RunSchedule(t, nil, false, true)
-		b := RunSchedule(t, Choices(a.Trace), false, true)
+		a := RunSchedule(t, nil, 0, true)
+		b := RunSchedule(t, Choices(a.Trace), 0, true)
 		if d := sameExec(a, b); d != "" {
 			r.HarnessError("determinism self-test failed for %s: %s", t.Name, d)
 		}
@@ -325,6 +340,14 @@ func SchedMain(r *Run, tests []*SchedTest, plan SchedPlan) {
 			if n < 1 {
 				n = 1
 			}
+			// cross-check knob: VERIF_SCHED_FORCE_PRUNE=0|1 overrides the plan, to compare the distinct outcomes of a
+			// pruned search with those of the plain one
+			switch os.Getenv("VERIF_SCHED_FORCE_PRUNE") {
+			case "0":
+				pb.Prune = false
+			case "1":
+				pb.Prune = true
+			}
 			for s := 0; s < n; s++ {
 				jobs = append(jobs, SchedJob{Test: t.Name, Bound: pb.Bound, Prune: pb.Prune, Shard: s, NShards: n,
 					Deadline: r.deadline.Unix()})
@@ -344,7 +367,7 @@ func SchedMain(r *Run, tests []*SchedTest, plan SchedPlan) {
 		js, _ := json.Marshal(jobs[i])
 		out := filepath.Join(scratch, fmt.Sprintf("schedjob-%d.json", i))
 		cmd := exec.Command(os.Args[0], os.Args[1:]...)
-		cmd.Env = append(os.Environ(), "GOMAXPROCS=1", "VERIF_SCHED_JOB="+string(js), "VERIF_SCHED_OUT="+out)
+		cmd.Env = append(os.Environ(), "GOMAXPROCS=1", "VERIF_SCHED_PARENT=1", "VERIF_SCHED_JOB="+string(js), "VERIF_SCHED_OUT="+out)
 		cmd.Stdout, cmd.Stderr = os.Stderr, os.Stderr
 		err := cmd.Run()
 		if err == nil {
@@ -478,8 +501,8 @@ func SchedMain(r *Run, tests []*SchedTest, plan SchedPlan) {
 			"executions_with_preemption": a.preempting, "max_schedule_length": a.maxLen, "bounds_completed": completed[t.Name]}
 		// determinism self-test, part 2: the longest recorded schedule replayed twice
 		if a.deepest != nil {
-			x := RunSchedule(t, a.deepest, false, true)
-			y := RunSchedule(t, a.deepest, false, true)
+			x := RunSchedule(t, a.deepest, 0, true)
+			y := RunSchedule(t, a.deepest, 0, true)
 			if d := sameExec(x, y); d != "" {
 				r.HarnessError("determinism self-test (deepest schedule) failed for %s: %s", t.Name, d)
 			}
@@ -510,7 +533,7 @@ func preemptionsOfCase(t *SchedTest, ch []int32) int {
 	if t == nil {
 		return -1
 	}
-	res := RunSchedule(t, ch, false, false)
+	res := RunSchedule(t, ch, 0, false)
 	return preemptions(res.Trace)
 }
 
